@@ -386,8 +386,8 @@ func (g *Graph) exitOf(b int) (ExitKind, bool) {
 		return 0, false
 	}
 	blk := g.C.Blocks[b]
-	if blk.Kind == cfg.KindSelectAfterCase && len(blk.Nodes) == 0 && len(blk.Succs) > 0 {
-		return 0, false // pruned infeasible edge
+	if blk.Kind == cfg.KindSelectAfterCase && len(blk.Nodes) == 0 {
+		return 0, false // "no case ready" of a blocking select: not an exit
 	}
 	if len(blk.Nodes) > 0 {
 		switch n := blk.Nodes[len(blk.Nodes)-1].(type) {
